@@ -352,6 +352,43 @@ func (t *vTree) mutations(r *vRand, hon vClaim, exhaustivePos bool) []vMut {
 			}
 		}
 	}
+	// ---- directed family: the proof for position p of a depth-d tree, re-presented with
+	// TreeDepth d+j at position p + k*2^d (vector commitments: at the element index whose msb
+	// position under the claimed depth d+j is msb(p) + k*2^d).  Every claim climbs the same d
+	// levels with the same hints and ends at position k != 0: only the final position check of
+	// inspectRoot rejects it.
+	if len(hon.elems) >= 1 && len(t.tree.Levels) >= 1 {
+		d := len(t.tree.Levels) - 1
+		for j := 1; j <= 2 && d+j <= 62; j++ {
+			for k := uint64(1); k < uint64(1)<<uint(j); k++ {
+				c := hon.clone()
+				c.depth = uint8(d + j)
+				ok := true
+				for x := range c.elems {
+					pos := c.elems[x].pos
+					if t.vc {
+						m, err := merkleTreeToVectorCommitmentIndex(pos, uint8(d))
+						if err != nil {
+							ok = false
+							break
+						}
+						m += k << uint(d)
+						back, err := merkleTreeToVectorCommitmentIndex(m, uint8(d+j))
+						if err != nil {
+							ok = false
+							break
+						}
+						c.elems[x].pos = back
+					} else {
+						c.elems[x].pos = pos + k<<uint(d)
+					}
+				}
+				if ok {
+					add("shift_depth", c)
+				}
+			}
+		}
+	}
 	// ---- root
 	if len(hon.root) > 0 {
 		c := hon.clone()
@@ -517,13 +554,20 @@ func (t *vTree) exercise(out *vOut, r *vRand, idxs []uint64, maxMut int, exhaust
 		// keep the forgery replay and the depth mutations, sample the rest
 		var keep, rest []vMut
 		for _, m := range ms {
-			if m.name == "forge_oversize" || m.name == "depth_plus1" {
+			if m.name == "forge_oversize" || m.name == "depth_plus1" || m.name == "shift_depth" {
 				keep = append(keep, m)
 			} else {
 				rest = append(rest, m)
 			}
 		}
-		for len(keep) < maxMut && len(rest) > 0 {
+		// the directed shift_depth family does not consume the sampling budget
+		budget := maxMut
+		for _, m := range keep {
+			if m.name == "shift_depth" {
+				budget++
+			}
+		}
+		for len(keep) < budget && len(rest) > 0 {
 			k := r.Intn(len(rest))
 			keep = append(keep, rest[k])
 			rest = append(rest[:k], rest[k+1:]...)
